@@ -374,6 +374,7 @@ def _signal_experiment(c, d, c0, W, ref_fs, V, res):
 
 
 def _do_dedrift(c, P, V, res):
+    import setigen as stg
     site = 'dedrift'
     m, n = P.data.shape
     unit = P.df / P.dt
@@ -386,6 +387,14 @@ def _do_dedrift(c, P, V, res):
     for route in ('direct', 'metadata', 'direct_kw') + (('direct_np',) if float(d).is_integer() and abs(d) < 2 ** 15 else ()):
         p0, fs0 = np.array(P.data, copy=True), np.array(P.fs, copy=True)
         res['n'] += 1
+        # deterministic history (see C01's decoy): a frame with the same number of integrations and OTHER resolutions was
+        # de-drifted at the same rate just before, in every process -- a memo shared between calls and keyed on the rate and the
+        # shape alone (seeded change C17-34) is then wrong for the call under test whenever this case is executed
+        try:
+            stg.dedrift(stg.Frame(fchans=n + 3, tchans=m, df=P.df * 2.0, dt=P.dt * 1.5, fch1=float(P.fch1), ascending=bool(P.ascending),
+                                  data=np.ones((m, n + 3))), d)
+        except Exception:
+            pass
         try:
             D = _dedrift_call(P, d, route)
             exc = None
